@@ -543,7 +543,8 @@ class PixelAlgorithms(AccessorBase):
                 output_core_dims=[["time"]],
                 keep_attrs=True,
                 dask="parallelized",
-                dask_gufunc_kwargs={"meta": self._obj.data.astype(dtype)},
+                # the kernels always return int16
+                dask_gufunc_kwargs={"meta": self._obj.data.astype("int16")},
             )
 
         else:
@@ -581,8 +582,12 @@ class PixelAlgorithms(AccessorBase):
                 output_core_dims=[["time"]],
                 keep_attrs=True,
                 dask="parallelized",
-                dask_gufunc_kwargs={"meta": self._obj.data.astype(dtype)},
+                # the kernels always return int16
+                dask_gufunc_kwargs={"meta": self._obj.data.astype("int16")},
             )
+
+        if res.dtype != np.dtype(dtype):
+            res = res.astype(dtype)
 
         res.attrs.update(
             {
@@ -781,9 +786,12 @@ class RollingWindowAlgos(AccessorBase):
             output_core_dims=[[dimension]],
             keep_attrs=True,
             dask="parallelized",
-            dask_gufunc_kwargs={"meta": self._obj.astype(dtype).data},
+            # the kernel always returns float32
+            dask_gufunc_kwargs={"meta": self._obj.astype("float32").data},
         )
         xx = xx[..., window_size - 1 :]
+        if xx.dtype != np.dtype(dtype):
+            xx = xx.astype(dtype)
         return xx
 
 
